@@ -490,5 +490,6 @@ theorem Inv2.step {s : AState} (h : Inv2 s) (j : Inv1 s) (op : Op) (henv : EnvOK
     · rename_i a ha
       exact resume_stored_inv2 _ (Inv1.setWB j {} 0) a ha _ _ _ _
   | recover a known => exact absurd henv id
+  | flush => exact inv2_congr h rfl rfl rfl rfl
 
 end Pool.C08
